@@ -37,7 +37,7 @@ ASSUMPTIONS = [
 ]
 OUTSIDE = ["schedules longer than the stated bound", "payload bytes other than the unique markers (the layers never inspect payloads)",
            "whether server.py can still deliver a message injected towards a connection whose write side was already half-closed",
-           "intercepted (withheld) hooks"]
+           "intercepted (withheld) hooks beyond the close-while-hook-pending obligation"]
 ENCODED = ["mitmproxy.proxy.layers.tcp:TCPLayer.start", "mitmproxy.proxy.layers.tcp:TCPLayer.relay_messages", "mitmproxy.proxy.layers.tcp:TCPLayer.done",
            "mitmproxy.proxy.layers.udp:UDPLayer.start", "mitmproxy.proxy.layers.udp:UDPLayer.relay_messages", "mitmproxy.proxy.layers.udp:UDPLayer.done"]
 
@@ -208,6 +208,56 @@ def h_relay(X, proto, K, reduced=False):
     X.reach("end")
 
 
+def h_close_pending(X):
+    """TCP: a message hook is still pending (slow addon, intercepted message) when the peers close.  Every close must still be
+    propagated to the other peer once the hook completes: a lone close as a half-close, both closes as closes of both connections,
+    with exactly one end hook."""
+    P = _P["tcp"]
+    ctx = sansio.make_context(_OPTS, transport="tcp")
+    ctx.server = connection.Server(address=("203.0.113.5", 4433), transport_protocol="tcp")
+    client, server = ctx.client, ctx.server
+    server.state = ConnectionState.OPEN
+    server.timestamp_start = 1700000000.5
+    server.peername = server.address
+    lay = P["layer"](ctx)
+    d = sansio.Driver(lay, ctx)
+    hold = {"on": True}
+    d.on_hook = lambda hook: not (hold["on"] and hook.name == P["message"])
+    d.start()
+    src = client if X.choose("data_from", ["client", "server"]) == "client" else server
+    d.data(src, b"[m0]")
+    X.check(len(d.pending_hooks) == 1, "C29/tcp/close-while-hook-pending/harness", f"message hook not pending: {d.hook_names}")
+    order = X.choose("closes", ["client", "server", "client,server", "server,client"])
+    for side in order.split(","):
+        d.close(client if side == "client" else server)
+    more = X.boolean("data_after_first_close") and "," not in order
+    if more:
+        other = server if order == "client" else client
+        d.data(other, b"[m1]")
+    hold["on"] = False
+    while d.pending_hooks:
+        d.complete_hook()
+    X.reach("ran")
+    closes = [(c.connection, bool(getattr(c, "half_close", False))) for c in d.trace if isinstance(c, commands.CloseConnection)]
+    n_end = sum(1 for n in d.hook_names if n in (P["end"], P["error"]))
+    what = f"data from {'client' if src is client else 'server'}, hook pending, then closes {order}{' + data from the other side' if more else ''}: close commands {[(('client' if c is client else 'server'), h) for c, h in closes]}, hooks {d.hook_names}"
+    sent = [(c.connection, bytes(c.data)) for c in d.trace if isinstance(c, commands.SendData)]
+    X.check((server if src is client else client, b"[m0]") in sent, "C29/tcp/close-while-hook-pending/message-lost", what)
+    if "," in order:
+        X.reach("both-closed-while-pending")
+        X.check(n_end == 1, "C29/tcp/close-while-hook-pending/end-hook", what)
+        for conn, nm in ((client, "client"), (server, "server")):
+            X.check(any(c is conn for c, _ in closes), f"C29/tcp/close-while-hook-pending/{nm}-never-closed",
+                    f"{what}: the other peer's close was never propagated to the {nm} (its connection lingers until the idle time-out)")
+    else:
+        other = server if order == "client" else client
+        X.check(n_end == 0, "C29/tcp/close-while-hook-pending/ended-on-half-close", what)
+        X.check(any(c is other and h for c, h in closes), "C29/tcp/half-close-not-propagated", what)
+        if more:
+            X.check((client if other is server else server, b"[m1]") in sent, "C29/tcp/close-while-hook-pending/data-after-half-close-lost", what)
+            X.reach("relayed-after-half-close")
+
+
 def obligations(tier):
     kt, ku, kd = (4, 4, 8) if tier == "quick" else (5, 5, 11)
     alpha = "{client data, server data, inject->server, inject->client (each with hook policy pass / length-changing edit), client close, server close, ConnectionClosed echo}"
@@ -223,4 +273,8 @@ def obligations(tier):
         Symx("udp-relay-schedule", lambda X: h_relay(X, "udp", ku),
              bounds=f"every schedule of {ku} enabled steps (all prefixes judged) over {alpha} {var}",
              encoded=ENCODED[3:], must_reach=must, parallel_depth=3),
+        Symx("tcp-close-while-hook-pending", h_close_pending,
+             bounds="TCP: one message from either peer whose tcp_message hook is withheld x {client, server, both in either order} closing meanwhile x data from the other side "
+                    "after a lone close; then the hook completes",
+             encoded=ENCODED[:3], must_reach=["ran", "both-closed-while-pending", "relayed-after-half-close"]),
     ]
